@@ -197,7 +197,7 @@ def absorb(rep: common.Report, results, classify=None):
         if seen_sig[sig] > 1:      # same signature again: counted, not re-reported
           continue
         rep.violation(sig, f"{name}: claim {f['claim']} fails for {f['values']} -> {f.get('detail', '')}"[:900],
-                      {'engine': 'symx', 'job': r.get('job'), 'claim': f['claim'], 'values': f['values'], 'detail': f.get('detail')})
+                      {'engine': 'symx', 'tier': rep.tier, 'job': r.get('job'), 'claim': f['claim'], 'values': f['values'], 'detail': f.get('detail')})
       else:
         rep.obligation(None, name, f"HARNESS-ERROR model for {f['claim']} did not reproduce concretely: {f['values']} {f.get('detail', '')}"[:400])
     if 'tv' in r:
